@@ -63,7 +63,10 @@ func tabHas(t *vTable, k int) bool {
 //@   ensures[inv] tabInv(t)
 //@   ensures[ok] ok && key >= 0
 //@   ensures[was-free] !old[bool](tabHas(t, int(key)))
-//@   ensures[present] tabHas(t, int(key)) && t.items[key] == item
+//@   ensures[present-item] t.items[key] == item
+//@   ensures[present-range] int(key) < 64*len(t.masks)
+//@   ensures[present-bit] t.masks[int(key)>>6]&(1<<uint(int(key)&63)) != 0
+//@   ensures[present] tabHas(t, int(key))
 //@   ensures[lowest-free] forall k int :: 0 <= k && k < int(key) ==> old[bool](tabHas(t, k))
 //@   ensures[others-unchanged] forall k int :: k != int(key) ==> tabHas(t, k) == old[bool](tabHas(t, k))
 //@   ensures[items-unchanged] forall k int :: 0 <= k && k < old(len(t.items)) && k != int(key) ==> t.items[k] == old[*vItem](t.items[k])
@@ -76,6 +79,7 @@ func tabHas(t *vTable, k int) bool {
 //@     invariant forall i int :: 0 <= i && i < old[int](len(t.masks)) ==> t.masks[i] == old[uint64](t.masks[i])
 //@     invariant forall i int :: old[int](len(t.masks)) <= i && i < len(t.masks) ==> t.masks[i] == 0
 //@     invariant forall i int :: 0 <= i && i < old[int](len(t.items)) ==> t.items[i] == old[*vItem](t.items[i])
+//@     invariant (verif_fresh_slice(t.masks) || verif_same_array(t.masks, old[[]uint64](t.masks))) && (verif_fresh_slice(t.items) || verif_same_array(t.items, old[[]*vItem](t.items)))
 //@   loop 1 (offset int, rangeindex int)
 //@     invariant -1 <= rangeindex && rangeindex < len(t.masks)-offset || (rangeindex == -1 && offset == len(t.masks))
 //@     invariant forall i int :: offset <= i && i <= offset+rangeindex ==> t.masks[i] == full
